@@ -184,6 +184,8 @@ class F80Model:
 
     # ---- arithmetic
     def binop(self, fun, a, b):
+        if fun not in self.macros:
+            return self.arith_glue(fun, a, b)
         kind, asm = self.macros[fun]
         lines = [('"%s"' % asm) if l == '$asm' else l for l in self.bin_tmpl]
         m = X87({0: ('f80', a), 1: ('f80', b)})
@@ -191,7 +193,38 @@ class F80Model:
         self.encoded.append('%s (asm: %s)' % (fun, asm))
         return m.out[2][1]
 
+    def const_val(self, name):
+        m = re.search(r'const %s: f80 = f80\(\[([0-9, ]+)\]\);' % name, self.src)
+        if not m:
+            raise Unsupported('f80::%s not found' % name)
+        bs = [int(x) for x in m.group(1).split(',')]
+        sig = int.from_bytes(bytes(bs[:8]), 'little')
+        se = bs[8] | (bs[9] << 8)
+        sign, exp = se >> 15, se & 0x7fff
+        if exp == 0 and sig == 0:
+            return z3.fpMinusZero(F80) if sign else z3.fpPlusZero(F80)
+        if sig >> 63 != 1:
+            raise Unsupported('f80 constant is not normalised')
+        return z3.fpFP(z3.BitVecVal(sign, 1), z3.BitVecVal(exp, 15), z3.BitVecVal(sig & ((1 << 63) - 1), 63))
+
+    def arith_glue(self, fun, a, b):
+        """operator bodies written in Rust instead of through the asm macros, e.g. `f80::ZERO - self`"""
+        c = [x for x in self.fns.get(fun, []) if not asm_of(x[1])]
+        if len(c) != 1:
+            raise Unsupported('operator %s is neither a macro instance nor a simple expression' % fun)
+        body = ' '.join(c[0][1].split())
+        m = re.match(r'^(f80::ZERO|f80::ONE|self|rhs) ([-+*/]) (f80::ZERO|f80::ONE|self|rhs)$', body)
+        if not m:
+            raise Unsupported('operator %s: body outside the supported grammar: %s' % (fun, body))
+        def val(t):
+            return a if t == 'self' else (b if t == 'rhs' else self.const_val(t.split('::')[1]))
+        op = {'+': 'add', '-': 'sub', '*': 'mul', '/': 'div'}[m.group(2)]
+        self.encoded.append('%s (glue: %s)' % (fun, body))
+        return self.binop(op, val(m.group(1)), val(m.group(3)))
+
     def unop(self, fun, a):
+        if fun not in self.macros:
+            return self.arith_glue(fun, a, None)
         kind, asm = self.macros[fun]
         lines = [('"%s"' % asm) if l == '$asm' else l for l in self.un_tmpl]
         m = X87({0: ('f80', a)})
